@@ -2337,7 +2337,7 @@ static void c14_end(Run &run) {
   for (auto &v : run.viol) if (v.prop == "C01") { v.prop = "C14"; v.oracle = "ledger_" + v.oracle; }
   if (reference) {
     g_c14_ref = C14Ref(); g_c14_ref.valid = true; g_c14_ref.seed = run.cfg.seed;
-    for (auto &r : run.reqs) { g_c14_ref.per_req.push_back(c14_req_shape(r)); g_c14_ref.ident.push_back(std::to_string(r.kind) + "|" + r.name + "|" + std::to_string(r.qtype) + "|" + std::to_string(r.family) + "|" + std::to_string(r.ai_flags)); }
+    for (auto &r : run.reqs) { g_c14_ref.per_req.push_back(c14_req_shape(r)); g_c14_ref.ident.push_back(std::to_string(r.kind) + "|" + r.name + "|" + std::to_string(r.qtype) + "|" + std::to_string(r.family) + "|" + std::to_string(r.ai_flags) + "|" + std::to_string((int)r.from_callback) + "|" + std::string(r.addr_bytes)); }
     return;
   }
   if (g_alloc.failed) run.note("allocation_failure_delivered");
@@ -2348,7 +2348,7 @@ static void c14_end(Run &run) {
     if (!r.accepted || r.cb_count == 0 || r.status != ARES_SUCCESS) continue;
     if (g_c14_ref.per_req[i].compare(0, 7, "SUCCESS") != 0) continue;
     // requests issued from callbacks shift the numbering once histories diverge: compare like with like only
-    if (g_c14_ref.ident[i] != std::to_string(r.kind) + "|" + r.name + "|" + std::to_string(r.qtype) + "|" + std::to_string(r.family) + "|" + std::to_string(r.ai_flags)) continue;
+    if (g_c14_ref.ident[i] != std::to_string(r.kind) + "|" + r.name + "|" + std::to_string(r.qtype) + "|" + std::to_string(r.family) + "|" + std::to_string(r.ai_flags) + "|" + std::to_string((int)r.from_callback) + "|" + std::string(r.addr_bytes)) continue;
     run.note("success_shape_compared");
     std::string now = c14_req_shape(r);
     // an AF_UNSPEC address lookup whose A or AAAA half failed legitimately returns the other half (as for any other failure of one half)
